@@ -5,6 +5,7 @@ package main
 
 import (
 	"fmt"
+	"os"
 	"go/token"
 	"sort"
 	"strings"
@@ -381,6 +382,21 @@ func (w *Walker) FactsAt(fr *Frame, site ssa.Instruction) []FactT {
 	return out
 }
 
+// exitFacts: facts at a success exit: the dominating facts of its block plus,
+// when the error result is returned straight from a call (tail call), the facts
+// implied by that call having returned nil.
+func (w *Walker) exitFacts(fr *Frame, b *ssa.BasicBlock, depth int) []FactT {
+	out := w.blockFacts(fr, b, depth)
+	ret, ok := b.Instrs[len(b.Instrs)-1].(*ssa.Return)
+	if !ok || len(ret.Results) == 0 || !lastResultIsError(fr.Fn) || depth >= 4 {
+		return out
+	}
+	if call := callOfErr(ret.Results[len(ret.Results)-1]); call != nil {
+		out = append(out, w.impliedFacts(fr, CallFact{Call: call, Outcome: "err==nil"}, depth)...)
+	}
+	return out
+}
+
 func (w *Walker) blockFacts(fr *Frame, b *ssa.BasicBlock, depth int) []FactT {
 	var out []FactT
 	for _, fct := range dominatingFacts(b) {
@@ -452,7 +468,7 @@ func (w *Walker) impliedFacts(fr *Frame, cf CallFact, depth int) []FactT {
 		var common map[string]FactT
 		for _, xb := range exits {
 			m := map[string]FactT{}
-			for _, ft := range w.blockFacts(nfr, xb, depth+1) {
+			for _, ft := range w.exitFacts(nfr, xb, depth+1) {
 				m[ft.String()] = ft
 			}
 			// a boolean function returning an expression: `return a.Equals(b)` with outcome true
@@ -549,4 +565,136 @@ func init() {
 			}
 		}
 	}
+}
+
+func init() {
+	dumps["ev"] = func(cx *Ctx) {
+		mod := os.Getenv("IRISLINT_MOD")
+		for _, e := range cx.EntriesOf("msg", "abci", "callback", "hook", "ante") {
+			if mod != "" && !strings.HasPrefix(e.Module, mod) {
+				continue
+			}
+			fmt.Printf("== %s %s.%s\n", e.Role, e.Module, e.Name)
+			w := newWalker(cx)
+			w.Walk(e.Fn, func(fr *Frame) {
+				for _, ev := range w.EventsOf(fr) {
+					if ev.Kind == "store.get" || ev.Kind == "store.has" || ev.Kind == "event" || strings.HasPrefix(ev.Kind, "store.iter") || strings.HasPrefix(ev.Kind, "ext.AccountKeeper") {
+						continue
+					}
+					var as []string
+					for _, a := range ev.Args {
+						if a.Op == "ctx" {
+							continue
+						}
+						s := a.LooseString()
+						if len(s) > 160 {
+							s = s[:160] + "…"
+						}
+						as = append(as, s)
+					}
+					must := "may "
+					if w.chainMust(fr, ev.Site) {
+						must = "MUST"
+					}
+					fmt.Printf("  %s %-32s %-30s %s (%s)\n", must, cx.P.Pos(ev.Site.Pos()), ev.Kind, strings.Join(ev.Prefix, "|"), strings.Join(as, " ; "))
+				}
+			})
+		}
+	}
+}
+
+// ---------------------------------------------------------------- return alternatives
+
+// Alt is one way a callee can return: the returned value (result idx) and the
+// branch facts that hold at that return.
+type Alt struct {
+	Val   *Term
+	Facts []FactT
+}
+
+// substTerm rebuilds t with every subterm satisfying match replaced by repl,
+// re-applying field/extract simplification.
+func (ts *Terms) substTerm(t *Term, match func(*Term) bool, repl *Term) *Term {
+	if t == nil {
+		return nil
+	}
+	if match(t) {
+		return repl
+	}
+	if len(t.Args) == 0 {
+		return t
+	}
+	nt := &Term{Op: t.Op, Name: t.Name, Site: t.Site}
+	changed := false
+	for _, a := range t.Args {
+		na := ts.substTerm(a, match, repl)
+		if na != a {
+			changed = true
+		}
+		nt.Args = append(nt.Args, na)
+	}
+	if !changed {
+		return t
+	}
+	switch nt.Op {
+	case "field":
+		return simplifyField(nt.Args[0], nt.Name)
+	case "extract":
+		var i int
+		fmt.Sscan(nt.Name, &i)
+		return ts.extract(nt.Args[0], i)
+	}
+	return nt
+}
+
+// callAlternatives: for a term that contains the result of a call (made in one
+// of the frames of the chain) to an irismod function with several returns, the
+// variants of the term per return of that callee together with the facts at that
+// return. Returns nil when no such call is found.
+func (w *Walker) callAlternatives(fr *Frame, t *Term) []Alt {
+	for f := fr; f != nil; f = f.Parent {
+		for _, b := range f.Fn.Blocks {
+			for _, ins := range b.Instrs {
+				c, ok := ins.(*ssa.Call)
+				if !ok {
+					continue
+				}
+				g := c.Common().StaticCallee()
+				if g == nil || g.Blocks == nil || !isIrismodFunc(g) || onChain(f, g) {
+					continue
+				}
+				rets := returnsOf(g)
+				if len(rets) < 2 {
+					continue
+				}
+				ct := w.ts.Of(c, f)
+				if ct.Op != "call" || findSub(t, func(x *Term) bool { return x.Op == "call" && x.Site == ct.Site && x.Name == ct.Name }) == nil {
+					continue
+				}
+				nfr := &Frame{Fn: g, Parent: f, Call: c, Depth: f.Depth + 1}
+				var alts []Alt
+				for _, ret := range rets {
+					if isFailureReturn(ret) {
+						continue
+					}
+					// tuple of results: substitute extract(call, i)
+					var tuple *Term
+					if len(ret.Results) == 1 {
+						tuple = w.ts.Of(ret.Results[0], nfr)
+					} else {
+						tuple = &Term{Op: "tuple"}
+						for _, rv := range ret.Results {
+							tuple.Args = append(tuple.Args, w.ts.Of(rv, nfr))
+						}
+					}
+					nt := w.ts.substTerm(t, func(x *Term) bool { return x.Op == "call" && x.Site == ct.Site && x.Name == ct.Name }, tuple)
+					alts = append(alts, Alt{Val: nt, Facts: w.blockFacts(nfr, ret.Block(), 0)})
+				}
+				if len(alts) > 0 {
+					return alts
+				}
+			}
+		}
+	}
+	return nil
 }
